@@ -4,7 +4,7 @@ from __future__ import annotations
 from hypothesis import strategies as st
 
 # --------------------------------------------------------------------------------------- C11
-C11_TASKS = ["A", "B", "C", "W", "S"]
+C11_TASKS = ["A", "B", "C", "W", "S", "N"]       # N: workflow with the workflow W as a node
 C11_PLANT_IDENTS = ["A", "B", "C", "E", "W"]
 PLANT_KINDS = ["empty", "jobonly", "zero"]
 
@@ -27,14 +27,51 @@ def c11_history(max_ops=8, cf_weight=1):
     return st.lists(c11_op(cf_weight), min_size=1, max_size=max_ops).map(lambda ops: dict(ops=ops))
 
 
+@st.composite
+def c11_followups(draw, cf_weight=6):
+    """One thing (workflows preferred) is submitted and then submitted again 1..3 times with
+    drawn rerun / propagate_rerun / worker / cache lists, a leftover planted in between now and
+    then: reruns (and read-only hits) of something already cached are reached in every case
+    instead of by luck.  The first submission is an ordinary one on the debug worker."""
+    roots = [0, 1, 2]
+    task = draw(st.sampled_from(["N", "W", "S", "N", "W", "A", "C"]))
+    root = draw(st.sampled_from(roots))
+    ops = [dict(op="submit", task=task, root=root, ro=[], rerun=False, prop=draw(st.booleans()),
+                worker="debug")]
+    for _ in range(draw(st.integers(1, 3))):
+        if draw(st.integers(0, 5)) == 5:
+            ops.append(dict(op="plant", ident=draw(st.sampled_from(C11_PLANT_IDENTS)),
+                            root=draw(st.sampled_from(roots)), kind=draw(st.sampled_from(PLANT_KINDS))))
+        if draw(st.integers(0, 2)) == 2:            # move: the earlier root becomes a read-only cache
+            new = draw(st.sampled_from([r for r in roots if r != root]))
+            ro, root = [root], new
+        else:
+            ro = []
+        ops.append(dict(op="submit", task=task, root=root, ro=ro,
+                        rerun=draw(st.integers(0, 3)) > 0, prop=draw(st.integers(0, 2)) > 0,
+                        worker="cf" if draw(st.integers(0, 11)) < cf_weight else "debug"))
+    return dict(ops=ops)
+
+
 # --------------------------------------------------------------------------------------- C13
 C13_KINDS = ["py_raise", "sh_exit", "wf_node", "dict_missing", "dict_empty", "tuple_long",
              "tuple_short", "none_for_two"]
 
 
+# how the command of the shell kind fails: exit status n | killed by signal n (TERM, KILL, USR1)
+C13_SH_FAIL = [["exit", 3], ["signal", 15], ["exit", 1], ["signal", 9], ["exit", 255],
+               ["signal", 10], ["exit", 127]]
+
+
+def _sh_fail(draw, kinds):
+    """drawn only when the shell kind takes part (the draw sequence of other cases is unchanged)"""
+    return {"sh_fail": draw(st.sampled_from(C13_SH_FAIL))} if "sh_exit" in kinds else {}
+
+
 @st.composite
 def c13_history(draw, max_ops=8, cf_weight=1):
     kinds = draw(st.lists(st.sampled_from(C13_KINDS), min_size=1, max_size=2, unique=True))
+    extra = _sh_fail(draw, kinds)
     n = draw(st.integers(2, max_ops))
     flag = {k: "fail" for k in kinds}
     ops = []
@@ -51,7 +88,7 @@ def c13_history(draw, max_ops=8, cf_weight=1):
             ops.append(dict(op="submit", kind=k, worker=worker,
                             api=draw(st.sampled_from(["call", "call", "submitter"])),
                             rerun=draw(st.integers(0, 5)) == 0))
-    return dict(kinds=kinds, ops=ops)
+    return dict(kinds=kinds, ops=ops, **extra)
 
 
 @st.composite
@@ -60,6 +97,7 @@ def c13_scenario(draw, cf_weight=1):
     follow-up classes (ok directly after a cached failure, cached ok while the flag says fail,
     rerun of a success that fails) are reached in every few cases instead of by luck"""
     k = draw(st.sampled_from(C13_KINDS))
+    extra = _sh_fail(draw, [k])
 
     def sub(rerun=False):
         worker = "cf" if draw(st.integers(0, 11)) < cf_weight else "debug"
@@ -70,7 +108,7 @@ def c13_scenario(draw, cf_weight=1):
                 dict(op="flip", kind=k, value="fail"), sub(), sub(rerun=True), sub(),
                 dict(op="flip", kind=k, value="ok"), sub()]
     ops = [o for o in template if draw(st.integers(0, 4))]
-    return dict(kinds=[k], ops=ops)
+    return dict(kinds=[k], ops=ops, **extra)
 
 
 # --------------------------------------------------------------------------------------- C19
@@ -176,6 +214,8 @@ POOL_VALUES = [
     ["list", [["attrs", "Q", {"a": ["set", [["str", "s"]]], "b": ["none"]}]]],
 ]
 FILE_TASKS = ["file_any", "file_copy", "sh_any", "sh_copy"]
+TWO_FILE_TASKS = ["file_two", "sh_two"]       # one task, two file fields a and b
+TWO_MODES = [["any", "copy"], ["copy", "any"], ["copy", "copy"]]   # copy modes of (a, b) as declared
 
 
 def c19_pool(full=True):
@@ -200,4 +240,22 @@ def c19_pool(full=True):
             for worker in ("debug", "cf"):
                 cases.append(dict(task=task, value=["file", "in.txt", "68656c6c6f"],
                                   prog=[[], action], worker=worker))
+    # two file fields on one task: declared modes x {two files, the SAME file for both fields} x
+    # field whose file the body works on x action x worker
+    for task in TWO_FILE_TASKS:
+        acts = [["file_append", "5a5a"], ["file_rewrite", "6e6577"], ["read"]]
+        if task.startswith("sh_"):
+            acts = [["file_append", "5a5a"], ["read"]]
+        # shell: not copy+copy - two staged copies of equally named files are renamed apart
+        # ("in (1).txt") and a blank in a shell argument runs into the known finding F-C23-1
+        for modes in (TWO_MODES[:2] if task.startswith("sh_") else TWO_MODES):
+            for same in (True, False):
+                for write in (0, 1):
+                    for n, action in enumerate(acts):
+                        for worker in ("debug", "cf"):
+                            if worker == "cf" and not full and (n > 0 or not same):
+                                continue
+                            cases.append(dict(task=task, modes=modes, same=same, write=write,
+                                              value=["file", "in.txt", "68656c6c6f"],
+                                              prog=[[], action], worker=worker))
     return cases
